@@ -140,7 +140,8 @@ def install(eng):
     mx = VClass("MX")
     mx.attrs["sym"] = stub(lambda eng, name, *shape: SymT(name))
     # ca.MX(x) of something that already is an MX expression is that expression
-    mx.constructor = lambda eng, c, a, k: a[0] if a and isinstance(a[0], (Mat, Elem, VecOf, Built, SymT)) else _uns("MX(...)")
+    mx.constructor = lambda eng, c, a, k: a[0] if a and isinstance(a[0], (Mat, Elem, VecOf, Built, SymT)) else (
+        Built("MX", (a[0],)) if a and isinstance(a[0], (ScalarVal, int, float)) else _uns("MX(...)"))
     dm = VClass("DM")
 
     def flat(shape):
@@ -159,13 +160,40 @@ def install(eng):
                                 "substitute": stub(lambda eng, e, a, b: e),
                                 "vec": stub(lambda eng, m_: VecOf(m_) if isinstance(m_, Mat) else m_),
                                 "vertsplit": stub(lambda eng, v_, *a: VList([Elem(v_.mat, k_) for k_ in range(v_.shape[0])]) if isinstance(v_, VecOf) else _uns("vertsplit")),
-                                "horzsplit": stub(lambda eng, v_, *a: _uns("horzsplit"))})
+                                "horzsplit": stub(lambda eng, v_, *a: _uns("horzsplit")),
+                                "veccat": stub(lambda eng, *a: Built("veccat", a)),
+                                "symvar": stub(lambda eng, e: VList(_symbols_in(e)))})
     typing = ModuleStub("typing", {})
     eng.ext_modules.update({"casadi": cas, "numpy": numpy, "re": ReStub(), "logging": ModuleStub("logging", {"getLogger": stub(lambda eng, *a: NoOp())}),
                             "itertools": itertools_module(), "sys": ModuleStub("sys", {"maxsize": 2 ** 63 - 1}),
                             "collections": CollectionsStub(), "typing": typing})
     eng.call_contracts.clear()
     eng.loop_specs.clear()
+
+
+def _symbols_in(e):
+    """the symbols an expression of this model's term stubs mentions (ca.symvar)"""
+    out = []
+
+    def go(x):
+        if isinstance(x, SymT):
+            if not any(x is o for o in out):
+                out.append(x)
+        elif isinstance(x, Built):
+            for a_ in x.args:
+                go(a_)
+        elif isinstance(x, (tuple, list)):
+            for a_ in x:
+                go(a_)
+        elif isinstance(x, VList):
+            for a_ in x.items:
+                go(a_)
+        elif isinstance(x, Elem):
+            go(x.mat)
+        elif isinstance(x, VecOf):
+            go(x.mat)
+    go(e)
+    return out
 
 
 def _uns(what):
@@ -219,7 +247,12 @@ def expected_name(name, mshape, ind, delay):
     return pre + ".".join(out) + post
 
 
+DUR = None
+
+
 def h_expand(eng, cases=None):
+    global DUR
+    DUR = ScalarVal("duration")
     install(eng)
     mm = eng.load_module(MODEL)
     cls = eng.module_global(mm, "Model")
@@ -264,8 +297,9 @@ def h_expand(eng, cases=None):
         m.fields["inputs"].items.append(dvar)
         m.fields["delay_states"] = VList(["d_other", name])
         da = eng.module_global(mm, "DelayArgument")
-        m.fields["delay_arguments"] = VList([VObj(VClass("DA"), {"expr": Mat("other_expr", (1, 1)), "duration": None}), VObj(VClass("DA"), {"expr": dexpr, "duration": "dur"})])
-        mm.globals["DelayArgument"] = _da_class()
+        # the model's real DelayArgument named tuple (iterable, indexable)
+        DA = eng.module_global(mm, "DelayArgument")
+        m.fields["delay_arguments"] = VList([eng.call(DA, [Mat("other_expr", (1, 1)), 3600.0], {}), eng.call(DA, [dexpr, DUR], {})])
     subst_meta = []
     cls.attrs["_substitute_metadata"] = _rec(subst_meta)
     cls.attrs["_substitute_delay_arguments"] = _rec2()
@@ -306,6 +340,11 @@ def h_expand(eng, cases=None):
     # (P) the substitution value is reshape(vertcat(row-major scalars), reversed shape).T
     # (checked through the call to _substitute_metadata, which receives the symbols / values lists)
     ok = False
+    # (P) attributes of the new scalars are written over the OLD array symbols (x[1].min = lo[0]): the metadata substitution must be
+    # handed every expanded array symbol, whether or not an equation mentions it
+    handed = bool(subst_meta) and any(x is sym for x in subst_meta[-1][0])
+    if flat_shape:
+        eng.prove("expand.every_expanded_array_symbol_is_substituted_in_the_metadata", z3.BoolVal(handed))
     if subst_meta:
         syms, vals = subst_meta[-1]
         idx = [i for i, x in enumerate(syms) if x is sym]
@@ -325,7 +364,7 @@ def h_expand(eng, cases=None):
             return position_of(key, cshape)
         okd = len(items) == len(ds) and all(0 <= p < len(items) and isinstance(items[p].fields.get("expr"), Elem) and items[p].fields["expr"].mat is dexpr and
                                             element(items[p].fields["expr"].key) == tuple(ind)
-                                            and items[p].fields.get("duration") == "dur" for p, ind in zip(pos, inds))
+                                            and items[p].fields.get("duration") is DUR for p, ind in zip(pos, inds))
         eng.prove("expand.delay_arguments_follow_the_same_order", z3.BoolVal(bool(okd)))
 
 
